@@ -2,6 +2,7 @@ CONSTANTS
   Thresholds = {0, 1, 2, 3}
   Results = {"ok", "fail", "timeout"}
   MaxLen = 7
+  WithB = TRUE
   Defects = {}
 SPECIFICATION Spec
 INVARIANT EmitCases
